@@ -307,10 +307,9 @@ func runGate(c *core.Ctx, slot int, stream string, idx int, sc gateScn) {
 	}
 	// the gated thread
 	var gtid uint64
-	var gline int
 	for _, e := range s.m.hookSnapshot() {
 		if e.seq == gate.HeldAt {
-			gtid, gline = e.tid, e.line
+			gtid = e.tid
 		}
 	}
 	rep := false
@@ -362,7 +361,6 @@ func runGate(c *core.Ctx, slot int, stream string, idx int, sc gateScn) {
 		c.Event("gate.site."+sc.site+"."+rel, 1)
 		c.NontrivialKey("gate|" + sc.name)
 	}
-	_ = gline
 	if rel != "stopthreads" {
 		s.cfg.script = []string{"resume"}
 	}
